@@ -237,8 +237,10 @@ impl FragmentTransport for FaultyTransport {
             "bad" => {
                 let b = match fault.as_ref().unwrap()["how"].as_str().unwrap_or("empty") {
                     "empty" => vec![],
-                    "garbage" => b"\x00\x01\x02not an arrow stream at all, just bytes".to_vec(),
-                    "json" => br#"{"error":"tables are still loading","status":503}"#.to_vec(),
+                    // NB: the first four bytes are read as a little-endian metadata length and arrow zero-fills a buffer of
+                    // that size before reading: text such as `{"er..` means a ~1.9 GB allocation per decode. Keep it small / negative.
+                    "garbage" => b"\xf0\xff\xff\xffnot an arrow stream at all, just bytes".to_vec(),
+                    "json" => b"\x10\x00\x00\x00{\"error\":\"x\"}....".to_vec(),
                     _ => { let mut b = body.clone(); for x in b.iter_mut().take(8) { *x = 0; } b }
                 };
                 Ok((b, r.row_count, 0.0))
